@@ -438,6 +438,15 @@ func (e *byzEngine) genClaims(bc *ByzCase, bs *byzState, stats *Stats) []Claim {
 		if st.N <= 32 {
 			stats.Reach["byz_single_fault_sweep"]++
 			out = append(out, e.sweep(base, L, pool, maxPos)...)
+			// and seeded combinations of two or three faults
+			for k := 0; k < 200; k++ {
+				c := base.clone()
+				nm := 2 + r.Intn(2)
+				for m := 0; m < nm; m++ {
+					c = e.mutate(r, c, L, pool, maxPos)
+				}
+				out = append(out, c)
+			}
 		} else {
 			stats.Reach["byz_seeded_multi_fault"]++
 			for k := 0; k < 300; k++ {
